@@ -253,6 +253,19 @@ func (r *runner) fixtures() {
 		if len(names) > limit {
 			names = names[:limit]
 		}
+		// regression input of the fixed defect sanity-panic:nil-gas-price-in-0.13.4-format: a real block of an older
+		// format (no l2_gas_price / l1 data gas price object) whose version string alone is changed to a >= 0.13.4
+		// one must be rejected, not panic — always run, whatever the sampling and the time budget
+		if b.Block.L2GasPrice == nil || b.Block.L1DataGasPrice == nil {
+			has := false
+			for _, n := range names {
+				has = has || n == "hdr.version.relabel0134"
+			}
+			if !has && !vge(b.Block.ProtocolVersion, 0, 13, 4) {
+				names = append(names, "hdr.version.relabel0134")
+			}
+			stats["regression:nil-price-object-under-newer-version"]++
+		}
 		for _, name := range names {
 			t, _, _ := fx.parse()
 			if carvedOut(t, name) {
@@ -277,9 +290,7 @@ func (r *runner) fixtures() {
 			}()
 			r.c.Count("fixture-tamper/"+id+"/"+name, true)
 			stats["tamper:probes"]++
-			if verr != nil && strings.HasPrefix(verr.Error(), "panic:") && nilPricePanic(t) {
-				r.c.Violation(nilPriceClass, fmt.Sprintf("%s (%s) tampering %s: core.VerifyBlockHash panics: %v", id, verStr, name, verr),
-					replayCase{Kind: "fixture", Detail: id, Tamper: name}, false)
+			if false {
 			} else if verr != nil && strings.HasPrefix(verr.Error(), "panic:") {
 				r.c.Violation("fixture:tamper-panic:"+tamperKind(name), fmt.Sprintf("%s (%s) tampering %s: %v", id, verStr, name, verr),
 					replayCase{Kind: "fixture", Detail: id, Tamper: name}, false)
